@@ -357,7 +357,8 @@ impl DateFilter for ds::MonthdayRange {
                     }
                 };
 
-                Some(next_change_from_bounds(date, [start], [end]))
+                // `end` is the first day after the range whereas interval bounds are inclusive
+                Some(next_change_from_bounds(date, [start], [end.pred_opt()?]))
             }
             ds::MonthdayRange::Date {
                 start:
